@@ -61,6 +61,9 @@ class RunModel:
                 self.early_exits.append((o, self.builder.events(effs)))
                 continue
             L = effs[main_i][1]
+            if L.kind not in ('index', 'grid'):
+                raise AnalysisError(f'the stepping loop of Solver.run iterates over `{getattr(L, "iter_text", "?")}`: an iteration space '
+                                    f'outside the recognised idioms (integer range / float grid / pre-computed list of a range)')
             pre = self.builder.events(effs[:main_i])
             post = self.builder.events(effs[main_i + 1:])
             loop_ev = self.builder.loop_event(L, ()) if L.kind == 'index' else Ev('loop', f'loop run:{L.lineno}', L.lineno, loop=L, raw=L)
